@@ -6,7 +6,7 @@ from vfw.props import common, fixcase
 PROPERTY = "C14"
 LEVEL = "exploration"
 RULE = (
-    "case = (sql, dialect, layout config variant) from dialect fixtures <= 4 kB, one seeded mutant and two comment-injected variants (comments / line breaks before brackets, after commas, between tokens) each, and the repo's LT* rule yaml examples with their own configs; fixed with "
+    "case = (sql, dialect, layout config variant) from dialect fixtures <= 3 kB, a seeded mutant of every 2nd and one comment-injected variant (comments / line breaks before brackets, after commas, between tokens) each, and the repo's LT* rule yaml examples with their own configs; fixed with "
     "rules=layout only under 9 layout config variants (comma/operator position, indent unit, tab size, max line length, trailing comments, implicit indents); oracle lexes source and fixed "
     "text with the same dialect: sequence of code-token texts equal, multiset of comment texts equal; distinct = content hash + variant; non-trivial = fix changed the text"
 )
@@ -30,7 +30,7 @@ VARIANTS = [
 
 def universe():
     u = []
-    base = common.fx_cases(4000) + common.mx_cases(1, 4000, start=20) + [c for c in common.rc_cases(("LT",))] + common.cx_cases(2, 4000)
+    base = common.fx_cases(3000) + common.mx_cases(1, 3000, start=20)[::2] + [c for c in common.rc_cases(("LT",))] + common.cx_cases(1, 3000)
     for i, c in enumerate(base):
         vi = i % len(VARIANTS)
         c = dict(c)
